@@ -1436,7 +1436,40 @@ func r017(c *an.Ctx) {
 	}
 	// the uniqueness probe looks the candidate up under the key it will be stored under
 	nProbe, probeMapped := 0, true
-	for _, f := range an.WithClosures(gen) {
+	// the probe: a function literal of genID, or a method of the collection handed over as a method value (its bound
+	// wrapper calls the method)
+	probeFns := an.WithClosures(gen)
+	for depth := 0; depth < 2; depth++ {
+		for _, f := range append([]*ssa.Function(nil), probeFns...) {
+			add := func(g *ssa.Function) {
+				if g == nil || len(g.Blocks) == 0 || g == gen {
+					return
+				}
+				if g.Pkg != nil && g.Pkg != gen.Pkg {
+					return
+				}
+				for _, have := range probeFns {
+					if have == g {
+						return
+					}
+				}
+				probeFns = append(probeFns, g)
+			}
+			an.Instrs(f, func(in ssa.Instruction) {
+				switch x := in.(type) {
+				case *ssa.MakeClosure:
+					if g, isFn := x.Fn.(*ssa.Function); isFn && f == gen {
+						add(g)
+					}
+				case *ssa.Call:
+					if f != gen {
+						add(x.Call.StaticCallee())
+					}
+				}
+			})
+		}
+	}
+	for _, f := range probeFns {
 		if f == gen {
 			continue
 		}
@@ -1809,6 +1842,44 @@ func r0117as(c *an.Ctx, rule string) {
 			}
 			n++
 			stored, fromParam, fromCapture := 0, true, ""
+			// (the callback may hand its argument to a helper of the package that does the storing: the helper's message
+			// stores are judged against the parameter the argument arrives in)
+			an.Instrs(save, func(in ssa.Instruction) {
+				hc, ok := in.(*ssa.Call)
+				if !ok {
+					return
+				}
+				g := hc.Call.StaticCallee()
+				if g == nil || g.Pkg != save.Pkg || len(g.Blocks) == 0 {
+					return
+				}
+				an.Instrs(g, func(in2 ssa.Instruction) {
+					st, isSt := in2.(*ssa.Store)
+					if !isSt || !strings.HasSuffix(st.Val.Type().String(), "proto.Message") {
+						return
+					}
+					if _, _, _, isF := an.FieldOf(st.Addr); !isF {
+						return
+					}
+					stored++
+					derives := false
+					for _, s0 := range an.SourcesOpaque(st.Val) {
+						for i, gp := range g.Params {
+							if s0 != ssa.Value(gp) || i >= len(hc.Call.Args) {
+								continue
+							}
+							for _, a0 := range an.SourcesOpaque(hc.Call.Args[i]) {
+								if a0 == ssa.Value(save.Params[0]) {
+									derives = true
+								}
+							}
+						}
+					}
+					if !derives {
+						fromParam = false
+					}
+				})
+			})
 			an.Instrs(save, func(in ssa.Instruction) {
 				st, ok := in.(*ssa.Store)
 				if !ok || !strings.HasSuffix(st.Val.Type().String(), "proto.Message") {
